@@ -1,5 +1,6 @@
 """C08 — QoS limits suffice and are enforced."""
 import core, pubsub_common as ps
+import pC05ports
 
 
 def run(ctx):
@@ -16,4 +17,6 @@ def run(ctx):
         quick = ctx.tier == "quick"
         core.diff_component(ctx, "zcc", ["gen", "--seed", ctx.seed, "--cases", 6000 if quick else 80000, "--len", 40 if quick else 60],
                             lambda case, idx, io, mo: "zcc:" + case[idx][0].split(" ")[0], label="zcc")
-    return core.finish(ctx, level="proof", rule=ps.RULE, extra_assumptions=ps.ASSUME)
+        # the limits of the event pattern: max notifiers / listeners / nodes, event id max value
+        pC05ports.ports_part(ctx, "C08")
+    return core.finish(ctx, level="proof", rule=ps.RULE + " " + pC05ports.RULE, extra_assumptions=ps.ASSUME + pC05ports.ASSUMPTIONS)
